@@ -45,7 +45,7 @@ PROPS["C08"] = {
     "native_validate": [{"id": "N-1", "args": ["triecheck"],
                          "desc": "the trie arrays the SuRF probe harnesses (A-5*) start from equal SurfTrie::build_from_sorted for every pair of 3-byte keys over the alphabet {0,1,2,127,128,255} (23436 pairs), native dev build"}],
     "level": "model_checking",
-    "explanation": "Bounded model checking (Kani/CBMC) of the pruning kernels that are executable symbolically: the order-preserving key encodings shared by the SuRF builder and the range probe (same-kind and cross-kind literals), the per-zone time index (builder invariant + query side from any state satisfying it) and the calendar's bucket arithmetic. Soundness is asserted as: whenever a stored value satisfies the probe, the structure's comparison keeps the zone. Engine B B-2: TemporalCalendarIndex::add_zone_range inserts the zone into every hour and day bucket of its range (per loop iteration: admitted by t <= end implies inserted; key and step checked).",
+    "explanation": "Bounded model checking (Kani/CBMC) of the pruning kernels that are executable symbolically: the order-preserving key encodings shared by the SuRF builder and the range probe (same-kind and cross-kind literals), the per-zone time index (builder invariant + query side from any state satisfying it) and the calendar's bucket arithmetic. Soundness is asserted as: whenever a stored value satisfies the probe, the structure's comparison keeps the zone. Engine B B-2: TemporalCalendarIndex::add_zone_range inserts the zone into every hour and day bucket of its range (per loop iteration: admitted by t <= end implies inserted; key and step checked). B-4: zone identity in CandidateZone::uniq / ZoneCombiner must include the event type (data flow of the keys; known finding F-C08-d, replayed end to end on the real engine). B-5: the per-zone XOR filter is built from every value value_to_string renders, hashed with stable_hash64. B-3: naive_bucket_of over the whole u64 range (integer encoding).",
     "outside": [
         "the trie builder under the solver (SurfTrie::build_from_sorted uses a HashMap): the probe harnesses start from hand-written trie arrays that a native run compares with the real builder; keys longer than 3 bytes, more than two keys per zone, the 16-lane SIMD child scan (needs >= 16 children)",
         "enum bitmaps, the calendar index's bitmap operations (HashMap<u32,RoaringBitmap>; its bucket-id function is decided by Engine B, B-1), the min_ts >= 0 insertion guard in the async temporal builder, XOR / binary-fuse filters, context index, index catalog, the >90% fallback rule: HashMap / roaring / xorf / I-O bound",
@@ -58,7 +58,7 @@ PROPS["C09"] = {
     "kani": "c09",
     "mir": "c09",
     "level": "model_checking",
-    "explanation": "Bounded model checking (Kani/CBMC) of the aggregate kernels: partial states of any split of a multiset merge to the state of the whole (AggState::merge for COUNT / TOTAL / AVG / MIN / MAX), the aggregators' update / merge / finalize equal the mathematical metric, the memory-tier update_from_event feeds exactly the stored values, snapshot_aggregator preserves the mergeable state.",
+    "explanation": "Bounded model checking (Kani/CBMC) of the aggregate kernels: partial states of any split of a multiset merge to the state of the whole (AggState::merge for COUNT / TOTAL / AVG / MIN / MAX), the aggregators' update / merge / finalize equal the mathematical metric, the memory-tier update_from_event feeds exactly the stored values, snapshot_aggregator preserves the mergeable state. B-3: the coordinator's finalisation of a merged MIN / MAX state reports the numeric extreme whenever one exists (follows a helper of the same impl if the arm delegates to one).",
     "outside": [
         "COUNT UNIQUE (HashSet), group keys and AggPartial::merge (HashMap), the segment-tier update(row, columns) and SIMD update_column paths (HashMap<String, ColumnValues>)",
         "calendar-aware PER bucketing (chrono), equality with the selection path over stored data, FOR / SINCE handling in aggregate mode (build_from_plan needs a QueryPlan)",
@@ -144,7 +144,7 @@ PROPS["C05"] = {
 PROPS["C11"] = {
     "mir": "c11",
     "level": "other",
-    "explanation": "Symbolic path-condition checking over the real MIR: a flushed segment enters the live list only after flush Ok + verification, segments.idx is replaced by temp/fsync/rename with a stale temp removed on load, compaction swaps index entries only for existing output directories and updates the live list only after the save - each decided by z3. B-4: one step of RangeAllocator::next_for_level from an arbitrary allocator state (stored offset < LEVEL_SPAN-1, any level below saturation): the id lies in the level's range and the next id of the level is strictly larger (saturating arithmetic modelled exactly, integer encoding); B-4r: the range is left at offset LEVEL_SPAN (known finding F-C11-a, replayed on the real allocator); B-5: merge plans get fresh ids.",
+    "explanation": "Symbolic path-condition checking over the real MIR: a flushed segment enters the live list only after flush Ok + verification, segments.idx is replaced by temp/fsync/rename with a stale temp removed on load, compaction swaps index entries only for existing output directories and updates the live list only after the save - each decided by z3. B-4: one step of RangeAllocator::next_for_level from an arbitrary allocator state (stored offset < LEVEL_SPAN-1, any level below saturation): the id lies in the level's range and the next id of the level is strictly larger (saturating arithmetic modelled exactly, integer encoding); B-4r: the range is left at offset LEVEL_SPAN (known finding F-C11-a, replayed on the real allocator); B-5: merge plans get fresh ids. B-6: RangeAllocator::from_existing_ids raises the stored offset of a name's level above the name's own offset (one loop step from an arbitrary map state).",
     "trusted_base": MIR_TRUSTED,
     "outside": [
         "byte-immutability of segment files over a lifetime, id reuse after restart / compaction (allocator seeded from directory names), crash points",
